@@ -90,8 +90,14 @@ Sign(a) == IF IsZero(a) THEN 0 ELSE IF a.neg THEN -1 ELSE 1
 
 RECURSIVE Pow(_, _)
 Pow(a, n) == IF n = 0 THEN FromInt(1) ELSE LET r == Pow(a, n - 1) IN Mul(a, r)
-Pow2(n)  == Pow(FromInt(2), n)
-Pow10(n) == Pow(FromInt(10), n)
+(* powers of 2 and 10 are needed for every type bound and scale: tabulated once (TLC evaluates a
+   parameterless definition once; it does not memoise operator applications) *)
+RECURSIVE PowTable(_, _)
+PowTable(a, n) == IF n = 0 THEN <<FromInt(1)>> ELSE LET t == PowTable(a, n - 1) IN Append(t, Mul(a, t[Len(t)]))
+Pow2Table  == PowTable(FromInt(2), 130)
+Pow10Table == PowTable(FromInt(10), 80)
+Pow2(n)  == Pow2Table[n + 1]
+Pow10(n) == Pow10Table[n + 1]
 
 (* truncated division is CHECKED, not computed: q and r are the quotient and
    remainder of a / b (toward zero; the remainder takes the dividend's sign)   *)
